@@ -4,6 +4,7 @@ mod c03;
 mod syncmsg;
 mod c05;
 mod c08;
+mod c09;
 mod c12;
 mod c14;
 mod storeops;
@@ -76,6 +77,7 @@ fn main() {
         "C03" => run(c03::C03::new(), &args, 1500, 40000),
         "C05" => run(c05::C05::new(), &args, 2500, 40000),
         "C08" => run(c08::C08::new(), &args, 700, 20000),
+        "C09" => run(c09::C09::new(), &args, 400, 8000),
         "C12" => run(c12::C12::new(), &args, 600, 10000),
         "C13" => run(storeprops::StoreProp::new("C13"), &args, 2500, 40000),
         "C16" => run(storeprops::StoreProp::new("C16"), &args, 1500, 20000),
